@@ -38,6 +38,7 @@ type Kernel struct {
 	Nat     bool              `json:"nat"`      // unsigned arithmetic: / and % are Nat division (Go uint semantics), not Int.tdiv
 	FloatOp bool              `json:"floatop"`  // arithmetic is on floats: / is float division
 	RetVar  string            `json:"retvar"`   // return this variable instead of translating the return expression
+	Closure bool              `json:"closure"`  // translate the body of the first function literal inside the function
 }
 
 type Schema struct {
@@ -102,7 +103,11 @@ func (t *tr) expr(e ast.Expr) string {
 			return "(-" + t.expr(x.X) + ")"
 		case token.NOT:
 			return "(!" + t.expr(x.X) + ")"
+		case token.AND: // &x: values are immutable in the model
+			return t.expr(x.X)
 		}
+	case *ast.StarExpr: // *p: dereference is the identity on values
+		return t.expr(x.X)
 	case *ast.SelectorExpr:
 		path := exprText(x)
 		if l, ok := t.field(path); ok {
@@ -419,7 +424,22 @@ func translate(repo string, k Kernel) (out string, err error) {
 			continue
 		}
 		t := &tr{k: k}
-		body := t.stmts(fd.Body.List, func() string { return "  " + t.final() + "\n" }, "  ")
+		list := fd.Body.List
+		if k.Closure {
+			var lit *ast.FuncLit
+			ast.Inspect(fd.Body, func(n ast.Node) bool {
+				if fl, ok := n.(*ast.FuncLit); ok && lit == nil {
+					lit = fl
+					return false
+				}
+				return true
+			})
+			if lit == nil {
+				return "", fmt.Errorf("no function literal in %s.%s", k.Recv, k.Func)
+			}
+			list = lit.Body.List
+		}
+		body := t.stmts(list, func() string { return "  " + t.final() + "\n" }, "  ")
 		return fmt.Sprintf("/-- generated from %s: %s.%s -/\ndef %s %s :=\n%s", k.File, k.Recv, k.Func, k.Lean, k.Sig, body), nil
 	}
 	return "", fmt.Errorf("function %s.%s not found in %s", k.Recv, k.Func, k.File)
@@ -483,10 +503,13 @@ func main() {
 		status["facts"] = "FAILED: " + ferr.Error()
 	} else {
 		status["facts"] = "ok"
+	}
+	if facts != "" {
 		if err := os.WriteFile(filepath.Join(*outDir, "Facts.lean"), []byte(facts), 0o644); err != nil {
 			fmt.Fprintln(os.Stderr, err)
 			os.Exit(2)
 		}
+		os.WriteFile(filepath.Join(*outDir, "facts.json"), factsJSON, 0o644)
 	}
 	js, _ := json.MarshalIndent(status, "", " ")
 	os.WriteFile(filepath.Join(*outDir, "status.json"), js, 0o644)
